@@ -119,6 +119,18 @@ func resumeThread(L *LState, wrapped bool) int {
 		th.Dead = false
 	} else {
 		nargs := L.GetTop() - 1
+		if !th.reg.canHold(nargs) {
+			// the values of this resume do not fit into the suspended coroutine's registry: refused before
+			// anything is moved (an overflow half-way left the values on its stack and the coroutine unusable)
+			msg := "registry overflow"
+			if wrapped {
+				L.RaiseError(msg)
+				return 0
+			}
+			L.Push(LFalse)
+			L.Push(LString(msg))
+			return 2
+		}
 		L.XMoveTo(th, nargs)
 		th.padResumeValues(nargs)
 	}
